@@ -215,6 +215,7 @@ func (p *c15Pattern) altersResponse() bool {
 
 type c15Run struct {
 	n, pre int
+	preKind int
 	b      []bool
 	delta  ot.Label
 	base   *c15Base
@@ -232,7 +233,21 @@ type c15Run struct {
 func c15Chunks(n int) int { return (n + 511) / 512 }
 
 func newC15Run(r *RNG, n, pre int, b []bool, delta ot.Label) (*c15Run, error) {
-	run := &c15Run{n: n, pre: pre, b: b, delta: delta, base: &c15Base{}}
+	return newC15RunKind(r, n, pre, c15PreLabels, b, delta)
+}
+
+// what the same sender/receiver objects did BEFORE the malicious batch under
+// test (the PRG streams continue): a semi-honest label batch, a complete
+// malicious batch (payload + 256 check rows), or a bit batch (SendBits /
+// ReceiveBits, pre a multiple of 64)
+const (
+	c15PreLabels = iota
+	c15PreMalicious
+	c15PreBits
+)
+
+func newC15RunKind(r *RNG, n, pre, preKind int, b []bool, delta ot.Label) (*c15Run, error) {
+	run := &c15Run{n: n, pre: pre, preKind: preKind, b: b, delta: delta, base: &c15Base{}}
 	rec := &c15RecIO{}
 	rnd := &labelLog{r: r.Fork()}
 	rcv, err := ot.NewIKNPReceiver(run.base, rec, rnd)
@@ -247,12 +262,29 @@ func newC15Run(r *RNG, n, pre int, b []bool, delta ot.Label) (*c15Run, error) {
 		for i := range pb {
 			pb[i] = r.Bool()
 		}
-		if err := rcv.Receive(pb, make([]ot.Label, pre), false); err != nil {
+		switch preKind {
+		case c15PreBits:
+			ch := make([]uint64, (pre+63)/64)
+			for i, f := range pb {
+				if f {
+					ch[i/64] |= 1 << uint(i%64)
+				}
+			}
+			err = rcv.ReceiveBits(ch, make([]uint64, (pre+63)/64), pre)
+		default:
+			err = rcv.Receive(pb, make([]ot.Label, pre), preKind == c15PreMalicious)
+		}
+		if err != nil {
 			return nil, err
 		}
 	}
 	run.nPre = len(rec.msgs)
 	run.pos = (pre + 7) / 8
+	extraLabels := 0
+	if pre > 0 && preKind == c15PreMalicious {
+		run.pos += 32
+		extraLabels = 3
+	}
 	run.rcvd = make([]ot.Label, n)
 	if err := rcv.Receive(b, run.rcvd, true); err != nil {
 		return nil, fmt.Errorf("honest receiver failed: %v", err)
@@ -263,10 +295,11 @@ func newC15Run(r *RNG, n, pre int, b []bool, delta ot.Label) (*c15Run, error) {
 	if len(run.msgs) != run.nPre+run.nPay+run.nChk+4 {
 		return nil, fmt.Errorf("unexpected message count %d (pre %d, n %d)", len(run.msgs), run.nPre, n)
 	}
-	if len(rnd.labels) != 2*ot.K+3 {
-		return nil, fmt.Errorf("receiver drew %d labels, expected %d", len(rnd.labels), 2*ot.K+3)
+	if len(rnd.labels) != 2*ot.K+3+extraLabels {
+		return nil, fmt.Errorf("receiver drew %d labels, expected %d", len(rnd.labels), 2*ot.K+3+extraLabels)
 	}
-	run.b0, run.b1, run.seed = rnd.labels[2*ot.K], rnd.labels[2*ot.K+1], rnd.labels[2*ot.K+2]
+	nl := len(rnd.labels)
+	run.b0, run.b1, run.seed = rnd.labels[nl-3], rnd.labels[nl-2], rnd.labels[nl-1]
 	if m := run.msgs[run.nPre+run.nPay+run.nChk]; !m.isLabel || m.label != run.seed {
 		return nil, fmt.Errorf("seed on the wire differs from the label drawn")
 	}
@@ -324,7 +357,14 @@ func (run *c15Run) sender(r *RNG, msgs []c15Msg) (sent []ot.Label, delta ot.Labe
 		return nil, d, e
 	}
 	if run.pre > 0 {
-		if _, e := snd.Send(run.pre, false); e != nil {
+		var e error
+		switch run.preKind {
+		case c15PreBits:
+			e = snd.SendBits(run.pre, make([]uint64, (run.pre+63)/64))
+		default:
+			_, e = snd.Send(run.pre, run.preKind == c15PreMalicious)
+		}
+		if e != nil {
 			return nil, snd.Delta, fmt.Errorf("pre batch: %v", e)
 		}
 	}
@@ -1149,7 +1189,11 @@ func c15Choices(r *RNG, n int) []bool {
 }
 
 func c15Delta(r *RNG, k int) ot.Label {
-	switch k % 8 {
+	switch k % 11 {
+	case 9: // nothing selected (legal through the d argument)
+		return ot.Label{}
+	case 10: // everything selected
+		return ot.Label{D0: ^uint64(0), D1: ^uint64(0)}
 	case 0: // sparse
 		d := c15Bit(r.Intn(128))
 		d.Xor(c15Bit(r.Intn(128)))
@@ -1182,11 +1226,15 @@ func runC15(c *Ctx) error {
 		} else if i >= len(sizes) && i%4 == 3 {
 			n = r.Range(1, 400)
 		}
-		pre := 0
-		if i%5 == 4 {
+		pre, preKind := 0, c15PreLabels
+		if i%5 == 4 || i%7 == 3 {
 			pre = []int{1, 8, 9, 64, 100, 513}[r.Intn(6)]
+			preKind = (i / 2) % 3
+			if preKind == c15PreBits {
+				pre = []int{64, 128, 576}[r.Intn(3)] // ReceiveBits is only right for n mod 64 == 0 (C06 finding)
+			}
 		}
-		run, err := newC15Run(r, n, pre, c15Choices(r, n), c15Delta(r, i))
+		run, err := newC15RunKind(r, n, pre, preKind, c15Choices(r, n), c15Delta(r, i))
 		if err != nil {
 			c.Fail("c15:honest-abort", "honest receiver/setup failed: "+err.Error(), map[string]int{"n": n, "pre": pre, "base": i})
 			continue
@@ -1194,7 +1242,7 @@ func runC15(c *Ctx) error {
 		c.Hist(fmt.Sprintf("n:%s", c15Bucket(n)))
 		c.Hist(fmt.Sprintf("nmod8:%d", n%8))
 		if pre > 0 {
-			c.Hist("pre-batch")
+			c.Hist("pre-batch:" + []string{"labels", "malicious", "bits"}[preKind])
 		}
 		pats := run.genPatterns(r, perBase)
 		// multi-flip deviations on every run: two of them in the correspondence case ...
@@ -1425,6 +1473,11 @@ func runC15(c *Ctx) error {
 	// and the static inventory of deferred result overwrites (c15wrap.go)
 	c15Wrappers(c)
 	c15Static(c)
+
+	// --- door sweep (c15doors.go): real transport + base OT, long-lived wrapper objects, concurrency
+	c15Pipe(c)
+	c15Sessions(c)
+	c15Concurrent(c)
 
 	// --- other build environments (c15env.go): GOARCH=386 child
 	c15Env(c)
